@@ -543,6 +543,54 @@ func c07One(c *config, u *universe, et types.Type, elem *tyTree, as types.AddrSp
 	case parseRes != "n/a" && parseRes != wantS:
 		bad = "parser differs from LLVM's rule"
 	}
+	// (e) the same constant expression over a global base, where another top-level entity carries it: the
+	// initialiser of a global and the aliasee of an alias (the parser computes the type of a bare gep aliasee on a
+	// path of its own, before the globals are translated)
+	if bad == "" && allConst && baseVec == 0 {
+		if rp, ok := want.(*types.PointerType); ok {
+			var b strings.Builder
+			for n, s := range u.named {
+				fmt.Fprintf(&b, "%%%s = type %s\n", quoteIfNeeded(n), s.LLString())
+			}
+			asText := ""
+			if as != 0 {
+				asText = fmt.Sprintf(" addrspace(%d)", as)
+			}
+			var idx []string
+			for _, f := range forms {
+				idx = append(idx, f.constant().String())
+			}
+			expr := fmt.Sprintf("getelementptr (%s, %s%s* @base", et, et, asText)
+			for _, ix := range idx {
+				expr += ", " + ix
+			}
+			expr += ")"
+			b.WriteString("@gg = global i8 0\n")
+			fmt.Fprintf(&b, "@base = external%s global %s\n", asText, et)
+			fmt.Fprintf(&b, "@p = global %s %s\n", rp, expr)
+			fmt.Fprintf(&b, "@al = alias %s, %s %s\n", rp.ElemType, rp, expr)
+			fmt.Fprintf(&b, "@bare = alias %s, %s\n", rp.ElemType, expr) // the aliasee without its type: the parser computes it
+			src := b.String()
+			var gt, at, bt string
+			oc, msg := guard(func() error {
+				m, err := asm.ParseString("c07e.ll", src)
+				if err != nil {
+					return err
+				}
+				gt = m.Globals[2].Init.Type().String()
+				at = m.Aliases[0].Aliasee.Type().String()
+				bt = m.Aliases[1].Type().String()
+				return nil
+			})
+			o.Stat("gep_carriers")
+			if oc != ocOk || gt != rp.String() || at != rp.String() || bt != rp.String() {
+				o.Fail("gep_type", c07Class(baseSc, forms, true), "a constant gep over a global, as initialiser and as aliasee, is rejected or typed differently",
+					map[string]interface{}{"src": src, "llvm": wantS, "initialiser": gt, "aliasee": at, "bare_alias": bt, "msg": msg})
+			} else {
+				o.Pass("gep_carriers")
+			}
+		}
+	}
 	if bad != "" {
 		// the listed findings concern particular computations: KF-07/KF-23 the instruction constructor and
 		// the parser (the expression constructor is right there), KF-09 the parser only, KF-08 all of them
